@@ -1022,6 +1022,17 @@ func (env *SpecEnv) call(x *SExpr) (*Term, types.Type) {
 					env.fail("%s(): not a pure function call", fn.Name)
 				}
 				return t, ty
+			case "panicking":
+				// the deferred function under contract was entered while its caller panics
+				env.e.ensurePanicCells(env.cur)
+				return env.e.panickingVar, types.Typ[types.Bool]
+			case "recovered":
+				env.e.ensurePanicCells(env.cur)
+				v := env.cells().cells[env.e.recoveredCell]
+				if v == nil {
+					v = False
+				}
+				return v, types.Typ[types.Bool]
 			case "callresult":
 				// first result of the (unique) earlier call to the named function in this unit
 				idx := "0"
